@@ -11,6 +11,12 @@ NOTE_S = ("Trusted base: the vrewrite source rewriter and the vz shim packages (
 NOTE_E = ("Engine E runs the unmodified mangos code under the real Go scheduler and real OS transports: inputs, configurations and operation lists are enumerated exhaustively over the stated finite sets, goroutine schedules and kernel segmentation are not controlled; hang verdicts use generous watchdogs; the harness codecs/reference decoders are trusted.")
 
 claimed = {
+ "C10": ("stateless model checking of the rewritten real code: deviation-bounded exploration of Close against blocked Send/Recv on all 24 socket kinds and contexts, exhaustive listener/dialer/pipe/hook histories ending in socket Close, each followed by a resource census (threads by creation site, timers, connections, listening addresses, pipe ids, pipe lists)",
+         "For every socket constructor (and context) calls are blocked in Recv and Send, Close runs concurrently and is placed at every scheduling point within the bound: every blocked call returns the closed error, Close returns, later Send/Recv/Dial/Listen/OpenContext/Close fail promptly; histories over listen, async dial (ok/refused), peer connect, hook-close, peer drop, close of listener/dialer/pipe, clock advance end with socket Close, an hour of virtual time and a census that must be empty.",
+         "DESIGN.md §6 C10"),
+ "C12": ("stateless model checking of the rewritten real code with a lock-leak monitor: exhaustive enumeration of socket kind x provoked API failure (x second failure) followed by every other API call; configuration-error paths of the real tcp/tls/ipc/ws/wss wrappers run under the same monitor",
+         "18 ways of making an API call fail (bad address, unknown scheme, address in use then corrected and retried on the same listener, refused then retried, handshake failure, asynchronous refusals, hook-closed pipe, peer drop, send/receive timeout, protocol state, unsupported operation, bad option/value, closed context/listener/dialer/pipe) on each of the 24 socket kinds, each followed by option calls, OpenContext, a new inbound connection that must attach, a receive and a send that must reach the peer, Dial and Listen; the shim mutex knows its owner, so a call that returns (or a thread that exits) while holding a library mutex, or re-locks one it holds, is reported at once; TLS/WSS Listen without config or certificate and bad-port/bad-path Listen/Dial on the real wrappers are followed by every option call, a retry and Close.",
+         "DESIGN.md §6 C12"),
  "C13": ("stateless model checking of the rewritten real core: exhaustive connect / hook-close / peer-drop / app-close histories on listener and dialer side with a recording protocol decorator, id allocator started next to the 31-bit wrap, plus schedule exploration of attach vs drop",
          "A recording decorator around the real xpub / xpair protocols logs AddPipe/RemovePipe, the pipe event hook logs Attaching/Attached/Detached and (as an explored choice) closes the pipe during Attaching or Attached; every history up to the stated depth is executed on the real core; per pipe the event grammar, AddPipe/RemovePipe pairing, id range/uniqueness until the Detached callback returned, and Address/Dialer/Listener/RemoteAddr are checked, and every later connection must still reach Attaching.",
          "DESIGN.md §6 C13"),
